@@ -171,7 +171,7 @@ def run(ctx):
             crashes.append(r)
         for run_ in r["runs"]:
             g = run_["graph"]
-            if g.get("partial") or not run_["closed"]:
+            if g.get("partial") or not run_["closed"] or g["n"] > ctx.pick(18, 60):
                 skipped_partial += 1
                 continue
             if run_["mode"] == "assign" and not g["iu"]:
